@@ -51,7 +51,12 @@ LABELS = [("Running example", "name"), ("Message", "msg"), ("number of states", 
           ("Probabilities min rew", "prob_min_rew"), ("Rewards", "rewards"), ("Rewards min reach", "rew_min_reach"),
           ("Total time", "total_time")]
 # letters include p and y (the characters of the ".py" extension) on purpose
-IDENT = st.text(alphabet="abpyXYP0123_", min_size=1, max_size=8).filter(lambda s: not s.endswith("_no_prune"))
+IDENT = st.one_of(st.text(alphabet="abpyXYP0123_", min_size=1, max_size=8).filter(lambda s: not s.endswith("_no_prune")),
+                  st.text(alphabet="abpyXYP0123_", min_size=1, max_size=8).filter(lambda s: not s.endswith("_no_prune")),
+                  st.text(alphabet="abpyXYP0123_", min_size=1, max_size=8).filter(lambda s: not s.endswith("_no_prune")),
+                  # a game (or file) may be called like one of the solver's own field names
+                  st.sampled_from(("rewards", "players", "transition_list", "final_states", "prune_states", "name", "msg",
+                                   "game", "games", "self")))
 
 
 # ----------------------------------------------------------------------------- independent report parser
